@@ -345,6 +345,13 @@ func runSim(rng *rand.Rand, tier string, k int) Case {
 					// metrics that arrive after the verdict
 					c.metricOp(t.Name, pick(c.rng, simValues))
 					c.tags["late-metrics-after-verdict"] = true
+				} else if rng.Intn(3) == 0 {
+					// the retained run object of a completed trial is removed by someone else (TTL, user clean-up)
+					r := c.s.jobGone(t.Namespace, t.Name)
+					c.emit(fmt.Sprintf("SIM jobGone %s %s", t.Namespace, t.Name), "ok="+b01(r))
+					if r {
+						c.tags["run-object-of-completed-trial-removed-externally"] = true
+					}
 				}
 			}
 		case op == 9:
@@ -370,15 +377,22 @@ func runSim(rng *rand.Rand, tier string, k int) Case {
 	if rng.Intn(2) == 0 {
 		g := cfgs[0]
 		if g.max != nil {
-			n := *g.max + int32(1+rng.Intn(2))
-			r := c.s.editMax(g.ns, g.name, n)
-			c.emit(fmt.Sprintf("SIM editMax %s %s %d", g.ns, g.name, n), "ok="+b01(r))
-			c.tags["budget-raised-after-completion"] = true
-			c.settle(g, 40)
-			c.emit(fmt.Sprintf("SIM quiesce-begin %s %s", g.ns, g.name), "ok=1")
-			c.round(g)
-			c.round(g)
-			c.emit(fmt.Sprintf("SIM quiesce-end %s %s", g.ns, g.name), "ok=1")
+			n := *g.max
+			raises := 1 + rng.Intn(2)
+			for ri := 0; ri < raises; ri++ {
+				n += int32(1 + rng.Intn(2))
+				r := c.s.editMax(g.ns, g.name, n)
+				c.emit(fmt.Sprintf("SIM editMax %s %s %d", g.ns, g.name, n), "ok="+b01(r))
+				c.tags["budget-raised-after-completion"] = true
+				if ri == 1 {
+					c.tags["budget-raised-twice"] = true
+				}
+				c.settle(g, 40)
+				c.emit(fmt.Sprintf("SIM quiesce-begin %s %s", g.ns, g.name), "ok=1")
+				c.round(g)
+				c.round(g)
+				c.emit(fmt.Sprintf("SIM quiesce-end %s %s", g.ns, g.name), "ok=1")
+			}
 		}
 	}
 	tags := []string{}
